@@ -395,7 +395,36 @@ def impl_msgtext(case):
     return [int(m.flags), None if m.opt is None else int(m.ednsflags), q, secs]
 
 
-_MT_TYPES = {"A", "NS", "CNAME", "SOA", "PTR", "MX", "TXT", "AAAA", "SRV", "DNAME", "ANY", "AXFR", "IXFR"}
+_MT_META = {"ANY", "AXFR", "IXFR"}
+_SCHEMA_TYPES = None
+
+
+def schema_types():
+    """type codes for which C05's Model/RdTextM.v has a text schema (read from the Coq source:
+    the `rdtype =? N` tests of schema_of)"""
+    global _SCHEMA_TYPES
+    if _SCHEMA_TYPES is None:
+        import re as _re
+
+        src = open(os.path.join(os.path.dirname(os.path.abspath(__file__)), "..", "coq", "Model", "RdTextM.v")).read()
+        i = src.index("Definition schema_of")
+        j = src.index("\nDefinition ", i + 10)
+        _SCHEMA_TYPES = {int(x) for x in _re.findall(r"rdtype =\? (\d+)", src[i:j]) if int(x) < 65536}
+    return _SCHEMA_TYPES
+
+
+def _mt_type_ok(u):
+    """a type mnemonic the message-text instance treats like the library: it has a text schema in
+    RdTextM, or the library has no class for it either (GenericRdata)"""
+    if u in _MT_META:
+        return True
+    try:
+        t = dns.rdatatype.from_text(u)
+    except Exception:  # noqa
+        return True           # not a mnemonic at all
+    if int(t) in schema_types():
+        return True
+    return dns.rdata.get_rdata_class(dns.rdataclass.IN, t).__name__ == "GenericRdata"
 
 
 def msgtext_in_model(text):
@@ -419,12 +448,8 @@ def msgtext_in_model(text):
         u = tok.upper()
         if u in ("CH", "HS", "INTERNET", "CHAOS", "HESIOD", "RESERVED0") or _re.fullmatch(r"CLASS\d+", u):
             return False
-        if _re.fullmatch(r"[A-Z][A-Z0-9-]*", u) and u not in _MT_TYPES and not _re.fullmatch(r"TYPE\d+", u):
-            try:
-                dns.rdatatype.from_text(u)
-                return False          # a real type the instance's table does not have
-            except Exception:  # noqa
-                pass
+        if _re.fullmatch(r"[A-Z][A-Z0-9_-]*", u) and not _re.fullmatch(r"TYPE\d+", u) and not _mt_type_ok(u):
+            return False              # a type the library implements and RdTextM has no schema for
     if "\\#" in t:
         for ln in t.split("\n"):
             if "\\#" in ln and not _re.search(r"TYPE\d+\s+\\#", ln, _re.I):
@@ -736,6 +761,24 @@ def msgtext_cases(ctx):
         t = gen_msgtext(rng)
         o = rng.choice([None, None, [b"example", b""], [b""]])
         yield "msg_text_model", [63, 1, enc(t), rng.randrange(2), o, rng.randrange(2)]
+    # one record of every type that has a text schema, from the specimen of the type: as it is, and
+    # (a sample) with one token replaced by a boundary token
+    specs = [(t, text) for (c, t, text, _w) in P.load_seeds().rdatas if c == 1 and text and int(t) in schema_types()]
+    for t, text in specs:
+        tn = dns.rdatatype.to_text(t)
+        for sec, orps in (("ANSWER", 0), ("ADDITIONAL", 1)):
+            yield "msg_text_types", [63, 1, enc("id 1\n;" + sec + "\nx.example. 300 IN " + tn + " " + text + "\n"), orps, None, 0]
+        yield "msg_text_types", [63, 1, enc("id 1\nopcode UPDATE\n;ZONE\nexample. IN SOA\n;UPDATE\nx 300 IN " + tn + " " + text + "\n"),
+                                 0, [b"example", b""], 1]
+    for _ in range(ctx.n(300, 5000)):
+        t, text = rng.choice(specs)
+        toks = P._tok_re.findall(text)
+        idx = [i for i, k in enumerate(toks) if k.strip()]
+        if not idx:
+            continue
+        i = rng.choice(idx)
+        t2 = "".join(toks[:i] + [rng.choice(P.SWEEP_TOKENS)] + toks[i + 1:])
+        yield "msg_text_types", [63, 1, enc("id 1\n;ANSWER\nx.example. 300 IN " + dns.rdatatype.to_text(t) + " " + t2 + "\n"), 0, None, 0]
 
 
 def cases(ctx):
